@@ -125,10 +125,10 @@ def mutations(rng, d):
     return out[:4]
 
 
-def load_result(d):
+def load_result(d, own_copy=True):
     import cobra.io as cio
     try:
-        m = cio.model_from_dict(copy.deepcopy(d))
+        m = cio.model_from_dict(copy.deepcopy(d) if own_copy else d)
     except Exception as e:
         return {"err": type(e).__name__, "msg": str(e)[:200]}
     o = M.observe(m)
@@ -159,8 +159,10 @@ def run_impl(spec, rng_seed):
             first = load_result(d)
             loads.append(("pristine", d_before, first))
             # loading must not consume its argument: the same saved dictionary loads again to the same model
-            again = load_result(d)
-            if M.jv(d) != d_before:
+            d_shared = copy.deepcopy(d)
+            load_result(d_shared, own_copy=False)
+            again = load_result(d_shared, own_copy=False)
+            if M.jv(d_shared) != d_before:
                 out["reload"] = "model_from_dict changed the dictionary it was given"
             elif again != first:
                 out["reload"] = "loading the same dictionary a second time gives a different model"
